@@ -141,21 +141,27 @@ var l1Deploy cluster.Options
 // drawDeployment draws the deployment of the case: mostly one server instance with local locks,
 // sometimes one instance with the Redis (redsync) lock, sometimes two instances on one database,
 // broker and Redis whose requests alternate between them (a multi-server deployment: nothing may
-// depend on state kept inside one server process). It returns a label.
+// depend on state kept inside one server process), the second instance either in this process or in
+// a child process. It returns a label.
 func drawDeployment(rt *rapid.T) string {
-	switch rapid.IntRange(0, 5).Draw(rt, "deployment") {
-	case 4:
+	switch rapid.IntRange(0, 7).Draw(rt, "deployment") {
+	case 5:
 		l1Deploy = cluster.Options{Redis: true}
 		return "deployment=one-instance+redis-lock"
-	case 5:
+	case 6:
 		l1Deploy = cluster.Options{Redis: true, Instances: 2}
 		return "deployment=two-instances+redis-lock"
+	case 7:
+		// the second server instance is another PROCESS: not even the table of local locks or
+		// package-level variables are shared with it
+		l1Deploy = cluster.Options{Redis: true, RemoteInstances: 1}
+		return "deployment=two-processes+redis-lock"
 	}
 	l1Deploy = cluster.Options{}
 	return "deployment=one-instance+local-lock"
 }
 
-const deploymentNote = "deployment drawn per case: 4 of 6 one server instance with process-local locks, 1 of 6 one instance with the Redis (redsync) lock on a RESP stand-in, 1 of 6 two server instances (own MongoDB/MQTT/Redis clients each) on the same database, broker and Redis, consecutive requests alternating between them"
+const deploymentNote = "deployment drawn per case: 5 of 8 one server instance with process-local locks, 1 of 8 one instance with the Redis (redsync) lock on a RESP stand-in, 1 of 8 two server instances (own MongoDB/MQTT/Redis clients each) in the harness process on the same database, broker and Redis, 1 of 8 one instance in the harness process and one in a child process (the test binary re-executed as a server); consecutive requests alternate between the instances"
 
 // infraProblem reports a use of the fakes that they do not implement (the run is inconclusive then).
 func (w *l1World) infraProblem() error {
